@@ -144,7 +144,7 @@ CHECKS["C10"] = {
 CHECKS["C18"] = {
     "level": "exploration",
     "rule": ("test binary built with -race (GORACE=halt_on_error=1). (a) rapid-generated virtual-time scenarios with keepalive on and all periods (ping, pong, resend, latency, pacing, fault delays) multiples of one "
-             "base period so that timer expiries and packet arrivals coincide at identical virtual instants, plus up to 12 extra application goroutines calling Send, Recv, SetSendTimeout, SetRecvTimeout and Close at those instants; "
+             "base period so that timer expiries and packet arrivals coincide at identical virtual instants, plus up to 12 extra application goroutines calling Send, Recv (several calls, with chunking drawn so that messages are reassembled from several packets), SetSendTimeout, SetRecvTimeout and Close at those instants; "
              "(b) rapid-generated real-time stress of IntervalAwareForceTicker with exactly the call mix of the send loop (on tick: pong.Reset, pong.Resume, ping.Reset) and of the receive loop (ping.Reset, pong.IsActive/Pause), "
              "readers of NextTickIn/LastTimedTick, and three goroutines driving TimeoutManager Sent/Received/Get*/Set*; (c) start-up failures: the transport of one endpoint fails on the first data-phase call (or one call earlier / later) "
              "so that a goroutine of the connection exits and closes it while start() is still launching the others, with the application calling Close / Send / Recv at that moment, 50 connections per case. Oracle: no race report, no panic (close of closed channel, send on closed channel), no deadlock (watchdog). "
@@ -183,8 +183,8 @@ CHECKS["C07"] = {
 CHECKS["C03"] = {
     "level": "exploration",
     "rule": ("rapid-generated handshakes over an in-memory message pipe that records every byte: XX with equal / one-bit-different (any of the 112 bits) / random / shorter passphrases, all compatible version ranges, "
-             "KK with each side's stored remote key right or wrong, drawn static keys, deterministic ephemerals, auth payloads 16 B .. 200 KB. Oracle: both DoHandshake succeed iff the secrets match; on a mismatch the responder "
-             "returns an error having written zero bytes, the initiator returns an error, its AuthData is nil, no onAuthData/onRemoteStatic callback fired, and the (high-entropy) payload appears nowhere on the wire. "
+             "KK with each side's stored remote key right or wrong, and KK impostors (either role presents the paired public key but computes its ECDH with an unrelated private key), drawn static keys, deterministic ephemerals, auth payloads 16 B .. 200 KB. Oracle: both DoHandshake succeed iff the secrets match; on a mismatch the responder "
+             "returns an error having written zero bytes, the initiator returns an error, its AuthData is unchanged (nil, or the stale payload it held before), no onAuthData/onRemoteStatic callback fired, and the (high-entropy) payload appears nowhere on the wire. "
              "Non-trivial: the mismatch cases; distinct by configuration."),
     "assumptions": ["scrypt cost lowered by the verif hook (as the repo's rpctest tag does)"],
     "units": [
@@ -238,7 +238,7 @@ CHECKS["C02"] = {
 CHECKS["C08"] = {
     "level": "exploration",
     "rule": ("rapid-generated sessions (XX v0/v1/v2, KK) followed by up to 12 runs of records (4500 records per case in the quick tier, 20000 in the thorough tier; run lengths include 499/500/501/999/1000/1001 around the rotation every 500 records), "
-             "directions interleaved arbitrarily - in half of the cases with writes and reads as separate steps, so that records of both directions are in flight while each side passes rotation boundaries -, sizes 0..65535, plaintext kinds: all-equal, the 2-byte body that equals its own length header, distinct random. Oracles per record: the (key, nonce) pair (hook) is new within its direction and the two directions never share a key; "
+             "directions interleaved arbitrarily, a sixth of the runs with the first Flush of every record interrupted by a write timeout after 1..400 bytes - in half of the cases with writes and reads as separate steps, so that records of both directions are in flight while each side passes rotation boundaries -, sizes 0..65535, plaintext kinds: all-equal, the 2-byte body that equals its own length header, distinct random. Oracles per record: the (key, nonce) pair (hook) is new within its direction and the two directions never share a key; "
              "wire length is 18+len+16; the encrypted header never repeats; equal plaintexts never give equal ciphertext; a 2-byte body never equals any header ciphertext; no 16-byte window of plaintext or auth payload is on the wire (records and handshake); "
              "the peer decrypts every record to exactly what was written. Non-trivial: the stream crossed at least one rotation and contained equal plaintexts; distinct by case."),
     "assumptions": ["scrypt cost lowered by the verif hook"],
